@@ -13,6 +13,7 @@ CONSTANTS Chunks,
           ValidateIndices, \* BOOLEAN: validate_shards rejects manifests with repeated / zero share indices
           GuardCombine,   \* BOOLEAN: receive_chunk / fetch_chunk turn a failing key reconstruction into a refusal
           GuardControl,   \* BOOLEAN: the control handler turns handler exceptions into an error response
+          SafeDecode,     \* BOOLEAN: the wire decoder bounds every declared length against the bytes present, without wrap-around
           NoSigpipe,      \* BOOLEAN: writes to a socket whose remote end has gone away fail with an error (MSG_NOSIGNAL) instead of raising SIGPIPE
           MaxHist
 \* manifest classes an adversary can put into a (validly signed) ANNOUNCE or hand to the control plane
@@ -51,17 +52,21 @@ CtlFetchEmptyOut == Out(IF GuardControl THEN "error" ELSE "threw") /\ UNCHANGED 
 \* a control client resets the connection after asking for a streamed response / a peer closes before the
 \* node answers its REQUEST: the daemon's next write hits a dead socket
 Abort == Out(IF NoSigpipe THEN "ignored" ELSE "killed") /\ UNCHANGED <<cached, held>>
+\* structurally hostile encodings (extreme / wrapping length words, truncations), validly MACed over a session or
+\* unauthenticated as the first frame of a new connection: decode() must reject them without touching memory it does not own
+HostileEncoding == Out(IF SafeDecode THEN "ignored" ELSE "killed") /\ UNCHANGED <<cached, held>>
 \* malformed control requests (bad PAYLOAD-LENGTH, over-long line, NULs, no blank line ...) are parse errors
 CtlMalformed == Out("error") /\ UNCHANGED <<cached, held>>
 
 Acts == {[op |-> "announce", c |-> c, m |-> m] : c \in Chunks, m \in MClasses}
    \cup {[op |-> "chunk", c |-> c] : c \in Chunks} \cup {[op |-> "store", c |-> c] : c \in Chunks}
    \cup {[op |-> "ctlfetch", c |-> c, m |-> m] : c \in Chunks, m \in {"ok", "dupidx", "zeroidx", "garbage", "expired"}}
-   \cup {[op |-> "other"], [op |-> "ctlemptyout"], [op |-> "ctlmalformed"], [op |-> "ctlabort"], [op |-> "peerabort"]}
+   \cup {[op |-> "other"], [op |-> "ctlemptyout"], [op |-> "ctlmalformed"], [op |-> "ctlabort"], [op |-> "peerabort"], [op |-> "wire"], [op |-> "prehs"]}
 Do(a) == CASE a.op = "announce" -> Announce(a.c, a.m) [] a.op = "chunk" -> ChunkMsg(a.c) [] a.op = "store" -> Store(a.c)
            [] a.op = "ctlfetch" -> CtlFetch(a.c, a.m) [] a.op = "other" -> Other
            [] a.op = "ctlemptyout" -> CtlFetchEmptyOut [] a.op = "ctlmalformed" -> CtlMalformed
            [] a.op \in {"ctlabort", "peerabort"} -> Abort
+           [] a.op \in {"wire", "prehs"} -> HostileEncoding
 Next == alive /\ \E a \in Acts : Do(a) /\ hist' = Append(hist, a)
 Spec == Init /\ [][Next]_vars
 View == <<cached, held, obs, alive>>
